@@ -145,7 +145,14 @@ def evalLayout (cfg : Cfg) (es : InEdges) (obs : Json) : E Verdict := do
     let logged ← match fieldOpt obs "events" with
       | some evs => do pure (some (← loggedCrossings (← jArr evs)))
       | none => pure none
-    for (k, ok, why) in tfunLayout cfg es comps o logged do
+    let pv ← match fieldOpt obs "pivots" with
+      | some p => do
+        (← jArr p).mapM fun x => do
+          match x with
+          | .arr #[a, b] => pure (some (← a.getInt?, ← b.getInt?))
+          | _ => pure none
+      | none => pure []
+    for (k, ok, why) in tfunLayout cfg es comps o logged pv do
       v := v.add k ok why
   -- C16
   if (cfg.p4 == 1 || cfg.p4 == 2) && cfg.virt && (comps o).length == 1 then
